@@ -93,7 +93,7 @@ impl Aml for RQSC {
     }
 }
 
-#[derive(Clone, Debug, Default)]
+#[derive(Clone, Debug)]
 pub struct QoSController {
     /// Identifies the specific register interface that is supported by this
     /// controller
@@ -126,6 +126,22 @@ pub struct QoSController {
     /// List of Resource Structures asssociated with this specific QoS
     /// controller.
     resource_structure: Vec<ResourceStructure>,
+}
+
+impl Default for QoSController {
+    // The length field counts the 28-byte fixed part that is always written
+    fn default() -> Self {
+        Self {
+            controller_type: 0,
+            length: 28u16,
+            register: gas::GAS::default(),
+            rcid_count: 0,
+            mcid_count: 0,
+            controller_flags: 0,
+            number_of_resources: 0,
+            resource_structure: Vec::new(),
+        }
+    }
 }
 
 impl QoSController {
